@@ -37,6 +37,7 @@ mod inject;
 mod txlog;
 mod multi;
 mod oblig;
+mod rcv;
 
 pub use snapshot::{PathSnap, Snapshot, SpaceSnap, StreamsSnap};
 pub use inject::{FrameProbe, Inject, StreamProbe};
@@ -125,6 +126,7 @@ fn registry(name: &str) -> Option<Ctor> {
         "mtud" => || Box::new(mtud::MtudC::new()),
         "streams" => || Box::new(streams::StreamsC::new()),
         "rxpn" => || Box::new(rxpn::RxPnC),
+        "rcv" => || Box::new(rcv::RcvC::new()),
         _ => return None,
     })
 }
